@@ -51,7 +51,13 @@ CLAIMS = {
         "n < 2^64: decimal, hexadecimal with any number of leading zeros and negated spellings all convert to n resp. 2^64-n with nothing left over - "
         "also the number-base part of C16), C03.written_number_value_padded (decimal numerals with any number of leading zeros stay decimal), "
         "C03.imm_field_reads_back / imm_field_dword / imm_field_qword (every emitted constant and the padded immediate field read back little-endian). Tie: the family on the C "
-        "implementation in modes STRICT/NASM/SMART, decoded and compared; asmline -r executes mov rax, v; ret for boundary v in every mode (C20).",
+        "implementation in modes STRICT/NASM/SMART, decoded and compared; asmline -r executes mov rax, v; ret for boundary v in every mode (C20). "
+        "FLAGSHIP, kernel-checked (axioms propext, Classical.choice, Quot.sound): C03.mov_r64_hex / mov_r64_neg_hex / mov_r64_dec / mov_r64_neg_dec - "
+        "for each of the 16 64-bit registers, EVERY v < 2^64, every option byte (three mov-immediate modes) and the four spellings with leading "
+        "zeros, the TEXT `mov <reg>, <number>` run symbolically through the whole per-line pipeline of the model (filter, tokenizer, lookups, "
+        "encode_imm, encode_operands, assemble_asm: Lemmas.MovText.mov_line, Lemmas.MovImm.mov_bytes) is one of three encodings which, read as the "
+        "CPU reads them (Spec.MovImm.movResult_movBytes), leave exactly v (resp. 2^64-v) in that register; tied to the C code by seeded random and "
+        "boundary v x registers x spellings x modes with the three encodings recomputed in the check.",
    note="Sweep by evaluation (native_decide axiom). 'Representable' is read as encodable: for 64-bit non-mov destinations values outside the sign-"
         "extended imm32 range are not in the family. mov r64, imm <= 0xffffffff may be emitted to the 32-bit register (C11 says in which mode).",
    technique="Lean 4 reference decoder; inductive numeral lemmas for all values; finite-domain theorem (native_decide); differential run with decoding oracle and executed code",
@@ -215,7 +221,9 @@ CLAIMS = {
         "per-line function a successful fitting call stores the plain code with pads inserted in front of instructions; each pad is a "
         "concatenation of NOP-table entries of total length c - p mod c and is non-empty only if the instruction (shorter than c) would "
         "cross the next boundary; every instruction shorter than c lies inside one chunk; deleting the pads gives the plain code; the "
-        "do-while loop needs at most two rounds; c<2 disables fitting. Tie + oracle: all c in 2..24 x every position mod c x every "
+        "do-while loop needs at most two rounds; c<2 disables fitting; second_assembly_same (AL.Lemmas.Reassemble): the fitting loop assembles a "
+        "padded instruction a second time from the record the first assembly left behind (the ib slot marks it) - for EVERY record the second "
+        "assembly emits the same bytes. Tie + oracle: all c in 2..24 x every position mod c x every "
         "instruction length 1..14 the library emits, random programs, fitting toggled between calls.",
    note="That each NOP-table entry decodes to exactly one x86 NOP is the kernel-checked theorem C01.nop_table_decodes (reference decoder "
         "AL.Spec.X86); the check also compares the entries with the Intel-recommended multi-byte NOP sequences.",
